@@ -279,10 +279,24 @@ Proof.
   destruct p; cbn; try lia. cbn in Hb. lia.
 Qed.
 
-Theorem canon_msg_wf m : dom_msg m -> wf_wmsg (canon_msg m).
+(* RFC 7296 3.14 / the decoder: an Encrypted payload is the last payload *)
+Definition is_psk (p : payload) : bool := match p with PSK _ _ => true | _ => false end.
+Fixpoint sk_consistent (l : list payload) : Prop :=
+  match l with
+  | [] => True
+  | p :: r => (is_psk p = true -> r = []) /\ sk_consistent r
+  end.
+
+Lemma sk_consistent_canon l : sk_consistent l -> sk_is_last (map (canon_payload eap_bytes) l).
 Proof.
-  intros (Hh & Hp & Ht). unfold wf_wmsg, canon_msg. cbn [wm_hdr wm_payloads wm_sk_next].
-  split; [exact Hh|]. split; [|split; [now apply sk_last_lt|exact Ht]].
+  induction l as [|p r IH]; [auto|]. cbn [sk_consistent map sk_is_last]. intros [H1 H2]. split; [|now apply IH].
+  intros Hs. assert (is_psk p = true) by (destruct p; cbn in *; congruence). rewrite (H1 H). reflexivity.
+Qed.
+
+Theorem canon_msg_wf m : dom_msg m -> sk_consistent (m_payloads m) -> wf_wmsg (canon_msg m).
+Proof.
+  intros (Hh & Hp & Ht) Hc. unfold wf_wmsg, canon_msg. cbn [wm_hdr wm_payloads wm_sk_next].
+  split; [exact Hh|]. split; [|split; [now apply sk_consistent_canon|split; [now apply sk_last_lt|exact Ht]]].
   rewrite Forall_map. eapply Forall_impl; [|exact Hp]. apply canon_payload_wf.
 Qed.
 
@@ -314,15 +328,6 @@ Qed.
 
 Definition norm_payload (p : payload) : payload := match p with PEAP e => PEAP (norm_eap e) | _ => p end.
 
-(* an Encrypted payload that is not the last one carries the type of its successor in NextPayload
-   (this is what the decoder stores and the encoder emits) *)
-Fixpoint sk_consistent (l : list payload) : Prop :=
-  match l with
-  | PSK n _ :: ((q :: _) as r) => n = ptype q /\ sk_consistent r
-  | _ :: r => sk_consistent r
-  | [] => True
-  end.
-
 Lemma erase_canon_body p nxt :
   dom_body p -> (forall n d, p = PSK n d -> n = nxt) ->
   erase_body eap_of nxt (canon_body eap_bytes p) = Some (Some (norm_payload p)).
@@ -353,8 +358,8 @@ Proof.
   - destruct r as [|q r].
     + reflexivity.
     + rewrite sk_last_cons. rewrite IH; [reflexivity|assumption|].
-      destruct p; cbn [sk_consistent] in Hc; try exact Hc. tauto.
-  - intros n d ->. destruct r as [|q r]; [reflexivity|]. cbn [sk_consistent] in Hc. cbn [next_of]. tauto.
+      exact (proj2 Hc).
+  - intros n d ->. destruct r as [|q r]; [reflexivity|]. cbn [sk_consistent] in Hc. destruct Hc as [Hc _]. specialize (Hc eq_refl). discriminate.
 Qed.
 
 Definition norm_msg (m : msg) : msg :=
